@@ -61,13 +61,25 @@ func H_C04_step() {
 	cur, ok := s.offsets.Load(vb)
 	dcur, dok := s.dirtyOffsets.Load(vb)
 
-	accepted := inRange && (old == nil || old.SeqNo <= o.SeqNo)
+	// a strictly newer position must be accepted, an older one rejected; for an
+	// equal seqno (the same event acknowledged again) the position does not move
+	// and either object may be kept
+	equal := inRange && old != nil && old.SeqNo == o.SeqNo
+	accepted := inRange && (old == nil || old.SeqNo < o.SeqNo)
+	if equal {
+		accepted = ok && cur == o
+	}
 	if !inRange {
 		cover("out-of-range")
 		assert(len(fc.tracked) == 0, "out-of-range: offset tracker not called")
 		assert(s.offsets.Count() == preCount, "out-of-range: no checkpoint entry created")
 		assert(s.dirtyOffsets.Count() == preDirtyCount, "out-of-range: no dirty mark created")
 		assert(ok == (old != nil) && (!ok || cur == old), "out-of-range: position untouched")
+	} else if equal {
+		cover("repeated")
+		assert(ok && (cur == old || cur == o) && cur.SeqNo == old.SeqNo, "repeated acknowledgement: position unchanged")
+		assert(len(fc.tracked) <= 1 && (len(fc.tracked) == 1) == (cur == o), "repeated acknowledgement: tracker told at most once, and only if the object was replaced")
+		assert(s.offsets.Count() == preCount, "repeated acknowledgement: entry count unchanged")
 	} else if !accepted {
 		cover("regression-rejected")
 		assert(ok && cur == old, "regression: tracked position kept")
@@ -192,7 +204,7 @@ func H_C04_par() {
 		r := vOffset("resume")
 		s.offsets.Store(uint16(vb), r)
 		ev[vb] = vOffset("ev")
-		assume(ev[vb].SeqNo >= r.SeqNo)
+		assume(ev[vb].SeqNo > r.SeqNo)
 		s.listen(models.ListenerArgs{Event: models.DcpMutation{DcpMutation: vMutation(uint16(vb), ev[vb].SeqNo, []byte("k")), Offset: ev[vb]}})
 	}
 	done := 0
